@@ -156,6 +156,19 @@ theorem mvp2_lower_bound (app : App) (a : Arch) (fuel : Nat) :
   unfold runMvp2 run
   omega
 
+/-- **the documented latency model**, pinned: the latency table (common/latency) and the execute
+latencies (`InstructionType.Cycles`): loads take 50 cycles, every other instruction 1.  The theorems
+above hold for ANY table; this one states which table is the documented one, so that a changed entry
+(which the regenerated model would silently follow) re-opens an obligation. -/
+theorem latency_table :
+    Gen.Latency.MemoryAccess = 309 ∧ Gen.Latency.L1Access = 3 ∧ Gen.Latency.L3Access = 50 ∧
+    Gen.Latency.RegisterAccess = 1 ∧ Gen.Latency.Flush = 1 ∧ Gen.Consts.mvp1.cyclesDecode = 1 ∧
+    Gen.Consts.mvp2.cyclesDecode = 1 := by decide
+
+theorem cycles_table (t : Gen.InstructionType) :
+    Gen.InstructionType.Cycles t = .ok (if t = .Lb ∨ t = .Lh ∨ t = .Lw then 50 else 1) := by
+  cases t <;> rfl
+
 /-- Non-vacuity: a two-instruction program on MVP-1 costs 309+1+1+1 for `li` and 309+1+1 for `ret`. -/
 example :
     (runMvp1 { instrs := [.li_ { rd := 5, imm := 7#32 }, .ret_ {}], labels := {} } ⟨{}, 0#32⟩ 10).cycles = 623 ∧
